@@ -39,7 +39,9 @@ COLLIDING = ["Client", "Server", "PACKET", "Net", "Map", "Pub", "Data", "Encrypt
              "Globals", "Str", "Len", "Range", "Set", "Open", "Bytes", "Filter", "Sorted", "Getattr", "Vars", "Dir", "Print",
              "Object", "Tuple", "Zip", "Isinstance", "Setattr", "Hasattr", "Any", "All", "Iter", "Next", "Super", "List", "Dict", "Type", "Int",
              # names the generated modules import for their own use
-             "Sequence", "Iterable", "Optional", "Cast", "Annotations", "Mapping", "Callable", "Union", "Enum", "IntEnum"]
+             "Sequence", "Iterable", "Optional", "Cast", "Annotations", "Mapping", "Callable", "Union", "Enum", "IntEnum",
+             # a name (and with it a module name and its import lines) far longer than any line-length limit
+             "Extraordinarily" + "LongButPerfectlyValidTypeName" * 4 + "ForAThing"]
 PATHS = ["", "net", "net/client", "net/server", "map", "pub", "pub/server"]
 FORBIDDEN = {"": {"net", "map", "pub"}, "net": {"client", "server"}, "pub": {"server"}}
 N_COLLISION = {"quick": 7, "thorough": 14}
